@@ -176,6 +176,10 @@ structure Def where
       thread of the transition system — and the refusal itself is not a cache operation: there is no
       step for it, so it cannot change the cache. -/
   fails  : Option Bool := none
+  /-- the class is slotted and has cached properties: it gets a second generated script, the
+      `__getattr__` of `_make_cached_property_getattr`, cached under its own fake filename
+      (`<attrs generated getattr …>`); this identifies that script's text -/
+  gscript : Option Nat := none
   deriving DecidableEq, Repr, FromJson, ToJson, Inhabited
 
 structure CacheCase where
@@ -187,7 +191,11 @@ structure CacheCase where
       already done are skipped; when it is exhausted the remaining threads run lowest index first.
       Empty for a sequential history. -/
   sched : List Nat
+  /-- which generated script the filenames are for: `methods` (default) or `getattr` -/
+  func  : Option String := none
   deriving DecidableEq, Repr, FromJson, ToJson, Inhabited
+
+def CacheCase.funcName (c : CacheCase) : String := c.func.getD "methods"
 
 structure CacheObs where
   /-- `co_filename` of each class's generated methods -/
@@ -205,10 +213,10 @@ structure CacheObs where
 
 def scriptText (n : Nat) : String := "script#" ++ toString n
 
-def baseOf (c : CacheCase) (d : Def) : String := uniqueFilename "methods" c.modul d.qual
+def baseOf (c : CacheCase) (d : Def) : String := uniqueFilename c.funcName c.modul d.qual
 
 def preCache (c : CacheCase) : Cache :=
-  c.pre.map (fun p => (candidate (uniqueFilename "methods" c.modul p.1) p.2.1, scriptText p.2.2))
+  c.pre.map (fun p => (candidate (uniqueFilename c.funcName c.modul p.1) p.2.1, scriptText p.2.2))
 
 def initState (c : CacheCase) : State :=
   { cache := preCache c, threads := c.defs.map (fun d => Thread.start (scriptText d.script) (baseOf c d)) }
@@ -240,5 +248,46 @@ def cacheModel (c : CacheCase) : CacheObs :=
     sourceOk := c.defs.map (fun _ => true),
     stable := c.defs.map (fun _ => true),
     realised := true }
+
+/-! ### the second script of a definition: the cached-property `__getattr__`
+
+  `build_class` runs `_linecache_and_compile` a second time for slotted classes with cached properties,
+  with the base filename `<attrs generated getattr mod.Qual>`.  Those names never meet the `methods`
+  names, so the definitions that have such a script form a history of their own over the same
+  transition system. -/
+
+def gcase (c : CacheCase) : CacheCase :=
+  { modul := c.modul, func := some "getattr", pre := [], sched := [],
+    defs := c.defs.filterMap (fun d => d.gscript.map (fun g => { qual := d.qual, script := g, fails := d.fails })) }
+
+/-- what a history / a concurrent run shows: the `methods` files of all definitions and the `getattr`
+    files of those that have one -/
+structure HistObs where
+  files    : List String
+  entries  : List (String × Nat)
+  /-- per class, at the END of the history: for EVERY generated function reachable from the class —
+      methods of both scripts, code objects nested in them (`__getattr__` inside `wrapper`), closures —
+      the code object's `co_filename` is an entry holding the text it was compiled from, `inspect.getsource`
+      returns that text, the entry survives `checkcache` -/
+  sourceOk : List Bool
+  stable   : List Bool
+  realised : Bool
+  /-- `co_filename` of the generated `__getattr__` of each definition that has one (in order) -/
+  gfiles   : List String
+  gentries : List (String × Nat)
+  deriving DecidableEq, Repr, FromJson, ToJson, Inhabited
+
+def HistObs.main (o : HistObs) : CacheObs :=
+  { files := o.files, entries := o.entries, sourceOk := o.sourceOk, stable := o.stable, realised := o.realised }
+
+def HistObs.sub (c : CacheCase) (o : HistObs) : CacheObs :=
+  { files := o.gfiles, entries := o.gentries, sourceOk := (gcase c).defs.map (fun _ => true),
+    stable := (gcase c).defs.map (fun _ => true), realised := o.realised }
+
+def histModel (c : CacheCase) : HistObs :=
+  let m := cacheModel c
+  let g := cacheModel (gcase c)
+  { files := m.files, entries := m.entries, sourceOk := m.sourceOk, stable := m.stable, realised := m.realised,
+    gfiles := g.files, gentries := g.entries }
 
 end Attrs.C17
